@@ -206,6 +206,9 @@ func RunCheck(cfg Config) {
 			CheckFn:  "check_case",
 			PerFile:  60,
 		}}
+	if cfg.Prop == "C02" {
+		RunImportScenario(sum)
+	}
 	// corpus first
 	if cfg.CorpusDir != "" {
 		names, hs, err := LoadCorpus(cfg.CorpusDir)
